@@ -89,6 +89,12 @@ impl WireView {
         self.probe_expiries.iter().any(|(pt, s, d, i)| *pt == t && *s == src && *d == dst && *i == id)
     }
 
+    /// ... or at some instant in `lo..=hi`? (The pieces of a probe that was taken back leave when
+    /// the windows allow, which can be later than the expiry itself.)
+    pub fn probe_expired_within(&self, src: SocketAddr, dst: SocketAddr, id: u16, lo: Us, hi: Us) -> bool {
+        self.probe_expiries.iter().any(|(pt, s, d, i)| *pt >= lo && *pt <= hi && *s == src && *d == dst && *i == id)
+    }
+
     pub fn build(events: &[Event]) -> WireView {
         Self::build_opts(events, true)
     }
